@@ -529,15 +529,12 @@ theorem new_spec (c : HCfg) (cap : Nat) (m : Mem) :
       subst ht
       refine ⟨trivial, inv_empty c _ (roundPowTwo_pow2 cap), by simp [abs], rfl, rfl, by omega⟩
 
-theorem subWrap_self (n : Nat) : (n + SIZE_MOD - n % SIZE_MOD) % SIZE_MOD = 0 := by
-  generalize SIZE_MOD = M
-  by_cases hM : M = 0
-  · subst hM; simp
-  have h1 : (n + M - n % M) = (n / M + 1) * M := by
-    have := Nat.div_add_mod n M
-    have := Nat.mod_le n M
-    rw [Nat.add_mul, Nat.one_mul, Nat.mul_comm]; omega
-  rw [h1]; exact Nat.mul_mod_left _ _
+theorem decWrapN_le (s n : Nat) (h : n ≤ s) : decWrapN s n = s - n := by
+  induction n generalizing s with
+  | zero => rfl
+  | succ n ih =>
+    unfold decWrapN
+    rw [decWrap_pos s (by omega), ih (s - 1) (by omega)]; omega
 
 theorem removeAll_capacity (t : HashTable) (m : Mem) : (t.removeAll m).1.capacity = t.capacity := by
   simp [removeAll]
@@ -547,7 +544,7 @@ theorem removeAll_buckets (t : HashTable) (m : Mem) :
     (t.removeAll m).1.buckets = (t.buckets.take t.capacity).map (fun _ => []) ++ t.buckets.drop t.capacity := by
   simp [removeAll]
 theorem removeAll_size (t : HashTable) (m : Mem) :
-    (t.removeAll m).1.size = (t.size + SIZE_MOD - t.walk.length % SIZE_MOD) % SIZE_MOD := by
+    (t.removeAll m).1.size = decWrapN t.size t.walk.length := by
   simp [removeAll]
 theorem removeAll_mem (t : HashTable) (m : Mem) :
     (t.removeAll m).2 = freeN (m.check (t.capacity ≤ t.buckets.length)) t.walk.length := by
@@ -564,8 +561,8 @@ theorem removeAll_spec (c : HCfg) (t : HashTable) (m : Mem) (h : t.Inv c) (hl : 
   have hbk : (t.buckets.take t.capacity).map (fun _ => ([] : List Entry)) ++ t.buckets.drop t.capacity = List.replicate t.capacity [] := by
     rw [List.take_of_length_le (by omega), List.drop_of_length_le (by omega), List.append_nil]
     rw [← hlen]; exact List.map_const' ..
-  have hsz : (t.size + SIZE_MOD - t.walk.length % SIZE_MOD) % SIZE_MOD = 0 := by
-    rw [hw, ← hsize]; exact subWrap_self t.size
+  have hsz : decWrapN t.size t.walk.length = 0 := by
+    rw [hw, ← hsize, decWrapN_le _ _ (Nat.le_refl _)]; omega
   have hfr := freeN_spec m t.walk.length (by rw [hw, ← hsize]; exact hl)
   have e1 := removeAll_capacity t m
   have e2 := removeAll_threshold t m
@@ -617,6 +614,33 @@ theorem foreach_refines (c : HCfg) (t : HashTable) (m : Mem) (h : t.Inv c) :
   unfold foreachKey foreachValue Map.keys Map.vals abs
   simp only [hchk, Mem.check_true, hw, List.map_map]
   exact ⟨rfl, trivial, rfl, trivial⟩
+
+
+
+/-- `CC_ERR_MAX_CAPACITY` is reported only by a table that has grown to `MAX_POW_TWO` buckets -/
+theorem add_maxcap (c : HCfg) (t : HashTable) (key : Key) (v : Nat) (m : Mem) (h : t.Inv c)
+    (hst : (t.add c key v m).1 = .errMaxCapacity) : (t.add c key v m).2.1.capacity = Gen.MAX_POW_TWO := by
+  have p := growLoop_spec c 64 t m h
+  unfold add at hst ⊢
+  by_cases hg : (growLoop c 64 t m).1 = .ok
+  · simp only [hg, ne_eq, not_true_eq_false, if_false] at hst ⊢
+    split at hst
+    · cases hst
+    · split at hst <;> cases hst
+  · simp only [hg, ne_eq, not_false_eq_true, if_true] at hst ⊢
+    exact p.unchanged hg hst
+
+/-- with an allocator that does not refuse, an insertion fails only at the maximal capacity -/
+theorem add_ok_of_no_refusal (c : HCfg) (t : HashTable) (key : Key) (v : Nat) (m : Mem) (h : t.Inv c)
+    (hs : m.sched = []) :
+    (t.add c key v m).1 = .ok ∨
+    ((t.add c key v m).1 = .errMaxCapacity ∧ (t.add c key v m).2.1.capacity = Gen.MAX_POW_TWO) := by
+  obtain ⟨a1, a2, a3, a4, a5, a6⟩ := add_spec c t key v m h
+  by_cases hok : (t.add c key v m).1 = .ok
+  · exact Or.inl hok
+  · rcases (a3 hok).1 with h1 | h1
+    · exact absurd h1 (a6 hs)
+    · exact Or.inr ⟨h1, add_maxcap c t key v m h h1⟩
 
 
 end CC.HashTable
